@@ -3,6 +3,7 @@
 
 #pragma once
 
+#include <atomic>
 #include <mutex>
 
 namespace rkcommon {
@@ -35,7 +36,9 @@ namespace rkcommon {
       bool update();
 
      private:
-      bool newValue{false};
+      // Read by update() before it takes the mutex, written by the producer
+      // under the mutex: has to be atomic to not be a data race.
+      std::atomic<bool> newValue{false};
       T queuedValue;
       T currentValue;
 
